@@ -709,6 +709,33 @@ func ruleR18i(h *H) {
 			h.Verdict(bad == "", rule, fmt.Sprintf("overlap eviction #%d in %s", n, ir.FuncName(fn)), h.pos(in), "the scan runs until the known shards are exhausted", bad)
 		})
 	}
+	// the library form: maps.DeleteFunc(shards, overlaps) visits every entry by construction
+	for _, fn := range h.P.Funcs {
+		if ir.RelPkg(ir.PkgPathOf(fn)) != "oxia/internal" {
+			continue
+		}
+		ir.Instrs(fn, func(in ssa.Instruction) {
+			c := ir.CallOf(in)
+			if c == nil {
+				return
+			}
+			f := c.StaticCallee()
+			o := f
+			if f != nil && f.Origin() != nil {
+				o = f.Origin()
+			}
+			if o == nil || o.Pkg == nil || !strings.HasSuffix(o.Pkg.Pkg.Path(), "maps") || o.Name() != "DeleteFunc" || len(c.Args) != 2 {
+				return
+			}
+			mt, ok := c.Args[0].Type().Underlying().(*types.Map)
+			if !ok || !ir.TypeIs(mt.Elem(), "oxia/internal", "Shard") {
+				return
+			}
+			n++
+			h.Fn(ir.FuncName(fn))
+			h.OK(rule, fmt.Sprintf("overlap eviction #%d in %s", n, ir.FuncName(fn)), h.pos(in), "maps.DeleteFunc visits every known shard")
+		})
+	}
 	if n == 0 {
 		h.Anchor(rule, "delete of an overlapping shard from the client's shard map inside a loop")
 	}
